@@ -27,7 +27,7 @@ def image_for(kind, upb_bounds):
         v, upc, bounds = fsgen.geom('G32a', tree='T0', nfree=3, bounds=upb_bounds)
         v['nfats'] = 1
         v['root'] = filler
-        v['info_free'] = 'unknown'
+        v['info_free'] = 'correct'       # the stored count is right (three free clusters) and must stay right: C16
     return dict(vols=[v]), upc, bounds
 
 def to_history(hid, steps, kind, bounds):
